@@ -1,11 +1,11 @@
 #!/bin/bash
-# usage: seed_eval.sh <prop> <worktree> <pkgdir> <demo-regexp> [check args]
+# usage: [SEED_NAME=C03b] seed_eval.sh <prop> <worktree> <pkgdir> <demo-regexp> [check args]
 # verifies a seeded change (build, package tests, demo fails with / passes without), stores it under
 # /verif/seeded/<prop>/ and runs the property's check against it in /repo (applied, then reverted).
 set -u
 prop=$1; wt=$2; pkg=$3; demo=$4; shift 4
 export GOFLAGS=-mod=mod GOPROXY=off GOSUMDB=off GOTOOLCHAIN=local
-out=/verif/seeded/$prop; mkdir -p $out
+out=/verif/seeded/${SEED_NAME:-$prop}; mkdir -p $out
 git -C $wt diff > $out/patch.diff
 [ -s $out/patch.diff ] || { echo "empty patch"; exit 2; }
 cp $wt/$pkg/zz_demo_test.go $out/zz_demo_test.go 2>/dev/null
